@@ -2,7 +2,7 @@
 //! Everything is a fixed-size array so that the solver sees no heap.
 
 /// Maximum length of one model list (largest capacity class + 1).
-pub const MAXN: usize = 4;
+pub const MAXN: usize = hashbrown::SHIM_CAP;
 
 /// A recency list: index 0 = most recently used, index n-1 = least recently used.
 #[derive(Clone, Copy)]
@@ -308,6 +308,122 @@ impl SlruM {
         match self.p.remove_key(k) {
             Some(v) => Some(v),
             None => self.t.remove_key(k),
+        }
+    }
+}
+
+// ---------------------------------------------------------------------------------------------
+// 2Q (C08)
+
+#[derive(Clone, Copy)]
+pub struct TwoQM {
+    pub size: usize,
+    /// recent quota = floor(size * recent_ratio)
+    pub rs: usize,
+    /// ghost bound = floor(size * ghost_ratio) >= 1
+    pub gcap: usize,
+    pub r: ML,
+    pub f: ML,
+    pub g: ML,
+}
+
+impl TwoQM {
+    pub fn val(&self, k: u8) -> Option<u8> {
+        match self.f.val(k) {
+            Some(v) => Some(v),
+            None => self.r.val(k),
+        }
+    }
+    pub fn retained(&self, k: u8) -> bool {
+        self.f.has(k) || self.r.has(k) || self.g.has(k)
+    }
+    /// get / get_mut: a second access moves a recent entry to the frequent queue
+    pub fn access(&mut self, k: u8) -> Option<u8> {
+        if let Some(v) = self.f.touch(k) {
+            return Some(v);
+        }
+        if let Some(v) = self.r.remove_key(k) {
+            self.f.push_front(k, v);
+            return Some(v);
+        }
+        None
+    }
+    /// victim queue choice when the cache is full; `strict`: recent must be strictly over quota
+    /// (ghost hit), otherwise "at quota" also counts (brand-new key). Falls back to the
+    /// non-empty queue.
+    fn take_victim(&mut self, strict: bool) -> (u8, u8) {
+        let over = if strict { self.r.n > self.rs } else { self.r.n >= self.rs };
+        let from_recent = if over { self.r.n > 0 } else { self.f.n == 0 };
+        if from_recent {
+            self.r.pop_back().unwrap()
+        } else {
+            self.f.pop_back().unwrap()
+        }
+    }
+    /// Deterministic part of put; `revive_first` selects, for the corner "ghost hit while both the
+    /// cache and the ghost list are full", whether the revived key leaves the ghost list before
+    /// (true) or after (false) the victim enters it - the statement allows both.
+    pub fn put(&mut self, k: u8, v: u8, revive_first: bool) -> MPut {
+        if let Some(old) = self.f.touch(k) {
+            self.f.set_val(k, v);
+            return MPut::Update(old);
+        }
+        if let Some(old) = self.r.remove_key(k) {
+            self.f.push_front(k, v);
+            return MPut::Update(old);
+        }
+        let full = self.r.n + self.f.n >= self.size;
+        if self.g.has(k) {
+            if !full {
+                let old = self.g.remove_key(k).unwrap();
+                self.f.push_front(k, v);
+                return MPut::Update(old);
+            }
+            let (vk, vv) = self.take_victim(true);
+            if revive_first {
+                let old = self.g.remove_key(k).unwrap();
+                self.g.push_front(vk, vv);
+                self.f.push_front(k, v);
+                return MPut::Update(old);
+            }
+            let mut dropped = None;
+            if self.g.n >= self.gcap {
+                dropped = self.g.pop_back();
+            }
+            self.g.push_front(vk, vv);
+            match dropped {
+                Some((dk, dv)) if dk == k => {
+                    // the ghost list pushed out the very key being revived
+                    self.f.push_front(k, v);
+                    MPut::Update(dv)
+                }
+                Some((dk, dv)) => {
+                    let old = self.g.remove_key(k).unwrap();
+                    self.f.push_front(k, v);
+                    MPut::EvictedAndUpdate(dk, dv, old)
+                }
+                None => {
+                    let old = self.g.remove_key(k).unwrap();
+                    self.f.push_front(k, v);
+                    MPut::Update(old)
+                }
+            }
+        } else {
+            if !full {
+                self.r.push_front(k, v);
+                return MPut::Put;
+            }
+            let (vk, vv) = self.take_victim(false);
+            self.r.push_front(k, v);
+            let mut dropped = None;
+            if self.g.n >= self.gcap {
+                dropped = self.g.pop_back();
+            }
+            self.g.push_front(vk, vv);
+            match dropped {
+                Some((dk, dv)) => MPut::Evicted(dk, dv),
+                None => MPut::Put,
+            }
         }
     }
 }
